@@ -1297,6 +1297,15 @@ def call_builtin(I, e, name, args, kws):
                 out.tags["kind"] = "int"             # sizes: structural, not data
                 out.shp = out.shp | out.data
                 out.data = E
+                syms = set()
+                for a in args:
+                    syms |= set(a.tag("dim_syms") or ())
+                    d_ = a.tag("dim")
+                    if isinstance(d_, tuple):
+                        syms |= set(d_)
+                if syms:
+                    out.tags["dim_syms"] = frozenset(syms)      # the extents this size is bounded by (min) / computed from
+                    out.tags["bounded_by"] = name
             sg = [eff_sign(a) for a in args]
             if all(x_ == "POS" for x_ in sg) or (name == "max" and "POS" in sg):
                 out.sign = "POS"
